@@ -149,6 +149,32 @@ for product, ps in patches.items():
                 want = -1 if ta < tb else (1 if ta > tb else None)
                 if want is not None and got != want and len(failures) < 5:
                     failures.append({'input': {'product': product, 'self_version': sw.version, 'other': v2 + p}, 'got': got, 'want': want})
+# the judgement is antisymmetric and transitive with the product-specific patch suffixes too (both sides may carry one)
+sub = [v for v, t in versions if len(t) <= 2 and all(x in (0, 1, 9, 10) for x in t)]
+na = nt = 0
+for product, ps in patches.items():
+    ps2 = ps + (['p10'] if product == 'OpenSSH' else ['test10'] if product == 'Dropbear SSH' else ['rc2'])
+    objs = [Software(None, product, v, (p or None), None) for v in sub for p in ps2]
+    cmpm = {}
+    for a in objs:
+        for b in objs:
+            cases += 1
+            cmpm[(id(a), id(b))] = a.compare_version(b)
+    for a in objs:
+        for b in objs:
+            x, y = cmpm[(id(a), id(b))], cmpm[(id(b), id(a))]
+            if x != -y and na < 3:
+                na += 1
+                failures.append({'input': {'class': 'antisymmetry', 'product': product, 'a': a.version + (a.patch or ''), 'b': b.version + (b.patch or '')}, 'got': {'cmp(a,b)': x, 'cmp(b,a)': y}, 'want': 'cmp(a,b) == -cmp(b,a)'})
+    small = objs[::3]
+    for a in small:
+        for b in small:
+            for c in small:
+                cases += 1
+                if cmpm[(id(a), id(b))] <= 0 and cmpm[(id(b), id(c))] <= 0 and cmpm[(id(a), id(c))] > 0 and nt < 3:
+                    nt += 1
+                    failures.append({'input': {'class': 'transitivity', 'product': product, 'a': a.version + (a.patch or ''), 'b': b.version + (b.patch or ''), 'c': c.version + (c.patch or '')},
+                                     'got': 'a <= b, b <= c but a > c', 'want': 'a <= c'})
 print(json.dumps({'cases': cases, 'failures': failures}))
 '''
 
